@@ -817,6 +817,8 @@ def relabel_rules(c, swaps=None):
     if swaps is None:
         swaps = [f for f in c.fns if any(e["cls"] == "swap" and e["role"] in ("def", "flag") for e in c.eff.get(f.id, []))]
         ck.floor("swap_functions", len(swaps), 4)
+    from .rule_u import sorted_rule
+    sorted_rule(ck, fb, lambda g: g.pq.startswith(TK + "::"), floor=2)
     # relabel siblings + processed sets
     ck.rule("C17.relabel", "both the cache-guided and the linear-scan branch rewrite references x/2==id1 -> id2 and x/2==id2 -> id1 keeping x%2; a 'processed' set in a guided branch lives outside the two-handle loop, is consulted before and filled after the rewrite, and is keyed by the entity whose definition/cache entry is rewritten")
     for f in swaps:
@@ -872,11 +874,69 @@ def relabel_rules(c, swaps=None):
             (ck.ok if ok else lambda r, w, t: ck.violate(r, w, t, "C17.relabel:%s:%s:siblings" % (f.pq, hname)))("C17.relabel", f.where, "%s: id1<->id2 rewrite tests present in both the %s branch (%d) and its linear-scan sibling (%d)" % (f.name, hname, t_n, f_n))
 
 
+def swap_id_exprs(cn):
+    """predicate on canonical strings: is this the identity of one of the swapped handles?  P0, P1, their idx()/uidx(), and
+    elements of a local array/vector that is filled with nothing else (`ids`)"""
+    import re
+    from .canon import Canon
+    base = re.compile(r"P[01](\.u?idx\(\))?")
+
+    def strip(x):
+        x = x.strip()
+        while True:
+            m = re.fullmatch(r"\((?:unsigned int|int|size_t|unsigned long|std::size_t|long)\)(.*)", x)
+            if m:
+                x = m.group(1).strip()
+                continue
+            if x.startswith("(") and x.endswith(")") and split_balanced(x):
+                x = x[1:-1].strip()
+                continue
+            return x
+
+    idvars = set()
+    for vid, ms in cn.mods.items():
+        if cn.kind.get(vid) != "mut":
+            continue
+        ops = []
+        for kind, b, i, m in ms:
+            if m.get("k") == "call" and m.get("pn", "").split("::")[-1] in ("push_back", "emplace_back") and m.get("a"):
+                ops.append(strip(cn.s(m["a"][0])))
+            else:
+                ops = None
+                break
+        if ops and all(base.fullmatch(o) for o in ops):
+            idvars.add(cn._name[vid])
+    for vid, (v, b, i) in cn.decl.items():
+        if cn.kind.get(vid) == "pure" and v.get("init") is not None and "[" in v.get("t", ""):
+            pass  # a pure array local is inlined as its initialiser list by Canon
+
+    def is_id(x):
+        x = strip(x)
+        if base.fullmatch(x):
+            return True
+        m = re.fullmatch(r"(v\d+)\[[^\]]*\]", x)
+        return bool(m and m.group(1) in idvars)
+    return is_id
+
+
+def split_balanced(x):
+    """True when the outermost parentheses of x enclose the whole string"""
+    d = 0
+    for i, ch in enumerate(x):
+        if ch == "(":
+            d += 1
+        elif ch == ")":
+            d -= 1
+            if d == 0 and i != len(x) - 1:
+                return False
+    return d == 0
+
+
 def relabel_loops(ck, f, sets, loops):
     """(a) a cache-guided loop over BOTH swapped handles that rewrites handles protects every rewrite by a processed set (an
     entity incident to both handles - parallel edges included - must be relabelled once); (b) a loop that rewrites handles
     (assignment / push_back of a handle under an id test) is never left early: every stored reference has to be visited"""
-    from .canon import Canon
+    from .canon import Canon, split_eq
     import re
     cn = Canon(f)
     HANDLE = ("OpenVolumeMesh::VH", "OpenVolumeMesh::EH", "OpenVolumeMesh::HEH", "OpenVolumeMesh::FH", "OpenVolumeMesh::HFH", "OpenVolumeMesh::CH")
@@ -899,11 +959,58 @@ def relabel_loops(ck, f, sets, loops):
                 out.append((b, i, x))
         return out
 
-    idtest = lambda b_: any("/ 2)" in s_ and "==" in s_ for s_, p_, c_ in cn.facts(b_))
+    is_id = swap_id_exprs(cn)
+
+    def idfact(s_):
+        if "/ 2)" in s_ and "==" in s_:
+            return True
+        r_ = split_eq(s_)
+        return bool(r_) and (is_id(r_[1]) != is_id(r_[2]))
+    idtest = lambda b_: any(idfact(s_) for s_, p_, c_ in cn.facts(b_))
+    both_handles = set()
+    for hdr, body, backs in loops:
+        t = f.term(hdr)
+        if t and t.get("cond") and re.fullmatch(r"\(it\d+\(0\) < 2\w*\)", cn.s(t["cond"])):
+            both_handles |= set(body)
+    # every handle rewrite of a cache-guided branch lies in a loop over the two swapped handles: any other way to enumerate
+    # the entities around both handles (a merged list, two sequential passes) needs its own argument why an entity incident
+    # to both is relabelled exactly once - not judged here
+    def exchange(r_):
+        # `if (entry == h_a) entry = h_b;` over the definition of h_a: the pairwise exchange of a single-valued cache
+        a_ = as_assign(r_[2])
+        if not a_ or not is_id(cn.s(a_[1])):
+            return False
+        l_ = cn.s(a_[0])
+        for s_, p_, c_ in cn.facts(r_[0]):
+            q_ = split_eq(s_)
+            if q_ and p_ is (q_[0] == "==") and ((q_[1] == l_ and is_id(q_[2])) or (q_[2] == l_ and is_id(q_[1]))):
+                return True
+        return False
+    for r_ in rewrites(f.reach()):
+        if exchange(r_):
+            continue
+        if idtest(r_[0]) and any(a[0].startswith("has_") and a[1] is True for a in atoms_at(f, r_[0])) and r_[0] not in both_handles:
+            ck.cannot_judge("C17.relabel %s: %s: a handle rewrite in a cache-guided branch is not inside a loop over the two swapped handles (unknown enumeration of the entities to relabel: %s)" % (f.loc(r_[2]), f.name, cn.s(r_[2])[:80]))
+    def statement_body(hdr, body):
+        """the blocks of the loop *statement*: the natural loop plus the blocks that leave it (a rewrite followed by break or
+        return is not part of the natural loop - it cannot reach the back edge - but it is part of the loop's text)"""
+        ent = [s_ for s_ in f.succ(hdr) if s_ in body and s_ != hdr]
+        ext = set(body)
+        for e_ in ent:
+            ext |= {b_ for b_ in f.reach() if b_ != 0 and f.dominates((e_, 0), (b_, 0))}
+        return ext
+
+    def directional(r_):
+        # std::replace(first, last, old, new) with an operand that names a swapped handle: a one-way substitution
+        x_ = r_[2]
+        return x_.get("pn", "") == "std::replace" and len(x_.get("a", [])) == 4 and bool(cn.deps(x_["a"][2]) | cn.deps(x_["a"][3]))
+
     for hdr, body, backs in loops:
         t = f.term(hdr)
         cond = cn.s(t["cond"]) if t and t.get("cond") else ""
-        rw = [r_ for r_ in rewrites(body) if idtest(r_[0]) or r_[2].get("pn", "").split("::")[-1] in ("set_from_vertex", "set_to_vertex")]
+        nat = body
+        body = statement_body(hdr, body)
+        rw = [r_ for r_ in rewrites(body) if idtest(r_[0]) or directional(r_) or r_[2].get("pn", "").split("::")[-1] in ("set_from_vertex", "set_to_vertex")]
         if not rw:
             continue
         guided = any(a[0].startswith("has_") and a[1] is True for a in atoms_at(f, hdr)) or any(a[0].startswith("has_") and a[1] is True for r_ in rw for a in atoms_at(f, r_[0]))
@@ -914,11 +1021,14 @@ def relabel_loops(ck, f, sets, loops):
             def not_yet_processed(s_, p_):
                 # find(k) == end() holds, or count(k) == 0 holds
                 return bool(eq_match(s_, "==", r".*\.find\(.*\)", r".*\.end\(\)", pol=p_, want="==")) or bool(eq_match(s_, "==", r".*\.count\(.*\)", r"0", pol=p_, want="=="))
-            unprotected = [r_ for r_ in rw if not any(not_yet_processed(s_, p_) for s_, p_, c_ in cn.facts(r_[0]))]
+            for r_ in rw:
+                if directional(r_):
+                    ck.violate("C17.relabel", f.loc(r_[2]), "%s: the loop over both swapped handles substitutes one way only (%s): the pass for the second handle rewrites again what the pass for the first produced whenever both handles touch the same list" % (f.name, cn.s(r_[2])[:90]), "C17.relabel:%s:directional" % f.pq)
+            unprotected = [r_ for r_ in rw if not directional(r_) and not any(not_yet_processed(s_, p_) for s_, p_, c_ in cn.facts(r_[0]))]
             (ck.ok if not unprotected else lambda r, w, t_: ck.violate(r, w, t_, "C17.relabel:%s:once" % f.pq))("C17.relabel", f.loc(t), "%s: every handle rewrite in the cache-guided loop over both swapped handles is behind a processed-set test (%d rewrite site(s), %d unprotected)" % (f.name, len(rw), len(unprotected)))
         # (b) no early exit from a rewriting loop
         inner = [h2 for h2, b2, k2 in loops if h2 != hdr and h2 in body]
-        early = sorted({bb for bb in body if bb != hdr and any(s_ is not None and s_ not in body for s_ in f.succ(bb))})
+        early = sorted({bb for bb in body if bb != hdr and any(s_ is not None and s_ not in body for s_ in f.succ(bb))} | (body - nat))
         (ck.ok if not early else lambda r, w, t_: ck.violate(r, w, t_, "C17.relabel:%s:early:%s" % (f.pq, cond[:30])))("C17.relabel", f.loc(t) if t else f.where, "%s: the loop (%s) that rewrites handles visits every entry (no break/return)%s" % (f.name, cond[:40], "" if not early else " - left early from block(s) %s" % early))
 
 
